@@ -499,7 +499,8 @@ fn n_engine(ctx: &Ctx) {
 /// (separate processes = fresh hash seeds; different orders = different histories of process-wide state).
 fn process_digest(order: usize) -> (u64, usize) {
     let unis = [Universe::new("U_adv(A_cls)", A_CLS, 2, 2, false), Universe::new("U_ab3{a,b}", &["a", "b"], 3, 3, false), crate::props::c05::u_rep_single(&["a", "b"], 6)];
-    let cfgs = [Cfg::new(0), Cfg::new(R), Cfg::new(D), Cfg::new(W | D | R), Cfg::new(I | NE), Cfg::new(R | G), Cfg::new(R | X), Cfg::new(R | G | X | E)];
+    // every one of the 15 flags occurs in some member of the family
+    let cfgs = [Cfg::new(0), Cfg::new(R), Cfg::new(D), Cfg::new(W | D | R), Cfg::new(I | NE), Cfg::new(R | G), Cfg::new(R | X), Cfg::new(R | G | X | E), Cfg::new(C), Cfg::new(C | X | R), Cfg::new(E | U), Cfg::new(S | NS), Cfg::new(NW | ND | NA)];
     let mut cases: Vec<(usize, usize, usize)> = vec![];
     for (ui, u) in unis.iter().enumerate() {
         for i in 0..u.len() {
@@ -526,11 +527,14 @@ fn process_digest(order: usize) -> (u64, usize) {
     (sum, cases.len())
 }
 
+const VARIANTS: [&str; 4] = ["empty environment", "enlarged environment (NO_COLOR, LANG, LC_ALL, TZ, COLUMNS, ...) + extra argument", "cwd=/, HOME/TMPDIR unusable, extra arguments", "taskset -c 0"];
+
 fn process_seeds(ctx: &Ctx) {
     let exe = std::env::current_exe().expect("current_exe");
     let (own, n) = fresh_thread(|| process_digest(0));
     let procs = if ctx.run.is_thorough() { 16 } else { 4 };
     let results = Mutex::new(BTreeSet::new());
+    let by_child: Mutex<Vec<(usize, String)>> = Mutex::new(vec![]);
     // every child differs from its siblings in something the result must not depend on: evaluation order, hash
     // seeds, pid, start time and address-space layout in any case; and, by index, the environment (emptied, or
     // enlarged by unrelated and by grex/locale/colour-looking variables), extra trailing program arguments, the
@@ -560,7 +564,9 @@ fn process_seeds(ctx: &Ctx) {
         }
         match cmd.output() {
         Ok(o) if o.status.success() => {
-            results.lock().unwrap().insert(String::from_utf8_lossy(&o.stdout).trim().to_string());
+            let d = String::from_utf8_lossy(&o.stdout).trim().to_string();
+            by_child.lock().unwrap().push((k, d.clone()));
+            results.lock().unwrap().insert(d);
         }
         Ok(o) => ctx.run.machinery_error(format!("digest child failed: {:?}", o.status)),
         Err(e) => ctx.run.machinery_error(format!("cannot spawn digest child: {e}")),
@@ -570,7 +576,8 @@ fn process_seeds(ctx: &Ctx) {
     seen.insert(format!("{own:016x}"));
     ctx.run.evals.fetch_add((n * (procs + 1)) as u64, Ordering::Relaxed);
     if seen.len() > 1 {
-        ctx.run.violation(viol("C10", "determinism", "process- or history-sensitive (fresh hash seeds, different evaluation orders)".into(), &[], &Cfg::new(0), "", json!({"distinct_digests": seen.iter().collect::<Vec<_>>(), "builds_per_process": n})));
+        ctx.run.violation(viol("C10", "determinism", "process- or history-sensitive (fresh hash seeds, different evaluation orders)".into(), &[], &Cfg::new(0), "", json!({"distinct_digests": seen.iter().collect::<Vec<_>>(), "builds_per_process": n, "this_process_fresh_thread": format!("{own:016x}"),
+            "children": by_child.lock().unwrap().iter().map(|(k, d)| json!({"child": k, "evaluation_order": k % 4, "variant": VARIANTS[k % 4], "digest": d})).collect::<Vec<_>>()})));
     }
     ctx.run.space(json!({"engine": "separate processes (fresh per-process hash seeds), each evaluating the same family of builds in a different order (natural, reversed, settings-major, reverse-settings-major): order-independent digests compared across processes and with a fresh thread of this process; the children also differ in environment (emptied / enlarged with locale-, colour- and grex-looking variables), trailing program arguments, working directory, HOME/TMPDIR and CPU set (taskset -c 0)", "processes": procs + 1, "builds_per_process": n, "distinct_digests": seen.len()}));
 }
